@@ -219,7 +219,7 @@ def run_one(ck, prog):
             ck.ob("C03.7", "calloc|zeroing-skipped-only-for-null-or-exempt-blocks", not extra, fn=cal["path"], site=ctx.site(wb[0]),
                   detail=f"the zeroing is guarded by a further condition ({'; '.join(show(f[1]) if f[0] == 'truth' else f'{show(f[2])} {f[1]} {show(f[3])}' for f in extra)}): a block carved from recycled memory comes back dirty whenever that condition fails")
             rets = list(ctx.ret_expr().values())
-            ck.ob("C03.7", "calloc|returns-the-block", len(rets) == 1 and is_direct_use(rets[0], mal[0]), fn=cal["path"], detail="calloc must return malloc's block")
+            ck.ob("C03.7", "calloc|returns-the-block", len(rets) >= 1 and all(is_direct_use(r, mal[0]) for r in rets), fn=cal["path"], detail="calloc must return malloc's block")
     cmc = prog.fns.get(DL + "calloc_must_clear")
     if ck.anchor("C03.7", "calloc_must_clear", cmc):
         c2 = prog.ctx(cmc)
@@ -247,7 +247,7 @@ def run_one(ck, prog):
             req = lin.of(cm.args(im[0])[1])
             terms = req[0] if req else {}
             nb_terms = [t for t in terms if "request2size" in t]
-            al_terms = [t for t in terms if "alignment" in t]
+            al_terms = [t for t in terms if t not in nb_terms and ("alignment" in t or "p2" in t)]   # the (possibly raised) alignment parameter
             ok = req is not None and len(terms) == 2 and len(nb_terms) == 1 and len(al_terms) == 1 and terms[nb_terms[0]] == 1 and terms[al_terms[0]] == 1 and req[1] >= mcs - coh
             ck.ob("C03.9", "memalign-reserves-nb+alignment+min_chunk-overhead", ok, fn=ma["path"], site=cm.site(im[0]),
                   detail=f"memalign must ask for at least request2size(bytes) + alignment + MIN_CHUNK_SIZE - CHUNK_OVERHEAD (= +{mcs - coh}) bytes: the aligned spot may have to move one alignment step up to leave a leader of MIN_CHUNK_SIZE, and what remains must still hold the padded request; it asks for {req} - with less, the block handed out can be shorter than requested and its tail overlaps the next chunk")
